@@ -50,6 +50,7 @@ type dialogWorld struct {
 	lastStraddle time.Time
 	probeCount   int
 	byeCount     int
+	cseqStyle    int
 	// noWaitForAnswer: respondFromBackend returns as soon as the answer is sent
 	noWaitForAnswer bool
 }
@@ -141,7 +142,14 @@ func (w *dialogWorld) respondFromBackend(svc int, o *wire.Obs, id string, status
 	rid := id + "x" + fmt.Sprint(status)
 	for _, h := range o.Msg.Headers {
 		switch sip.Canon(h.Name) {
-		case "via", "from", "call-id", "cseq":
+		case "cseq":
+			// the answering side writes number and method with blanks of its own
+			if f := strings.Fields(h.Value); len(f) == 2 {
+				w.cseqStyle++
+				h.Value = f[0] + []string{" ", "  ", "\t", " \t "}[w.cseqStyle%4] + f[1]
+			}
+			resp.Headers = append(resp.Headers, h)
+		case "via", "from", "call-id":
 			resp.Headers = append(resp.Headers, h)
 		case "to":
 			v := h.Value
@@ -886,6 +894,8 @@ type ptDialog struct {
 	invID    string
 	// ringFirst: a 180 with the To-tag precedes the 200 that carries the Expires
 	ringFirst bool
+	// expText: how the Expires value is written ("" = plain decimal)
+	expText string
 }
 
 // scenarioPinTime: dialogTimeout 2 s on the real binary; lifetimes 2-4 s.
@@ -940,8 +950,10 @@ func scenarioPinTime() int {
 				d.ringFirst = plan == "ringing-then-expires"
 			case "expires-much-larger":
 				// two probes more than one dialog timeout apart, both well inside the promised lifetime
-				d.expires = 7
-				d.life = 7 * time.Second
+				// (written with leading zeros now and then: a decimal number all the same)
+				d.expires = 8
+				d.life = 8 * time.Second
+				d.expText = []string{"8", "08", "0008"}[g.R.Intn(3)]
 			case "expires-smaller":
 				d.expires = 1
 			}
@@ -1004,7 +1016,7 @@ func scenarioPinTime() int {
 			}
 		}
 		// unrelated traffic with absurd Expires values all along
-		for t := time.Duration(0); t < 7*time.Second; t += time.Duration(150+g.R.Intn(200)) * time.Millisecond {
+		for t := time.Duration(0); t < 9*time.Second; t += time.Duration(150+g.R.Intn(200)) * time.Millisecond {
 			evs = append(evs, ptEvent{at: t, what: "unrelated"})
 		}
 		// time order
@@ -1076,7 +1088,11 @@ func (w *dialogWorld) ptExec(e ptEvent) {
 		d.be = be[0]
 		var extra []sip.Header
 		if d.expires > 0 {
-			extra = append(extra, sip.Header{Name: "Expires", Value: fmt.Sprint(d.expires)})
+			v := fmt.Sprint(d.expires)
+			if d.expText != "" {
+				v = d.expText
+			}
+			extra = append(extra, sip.Header{Name: "Expires", Value: v})
 		}
 		if d.ringFirst {
 			w.respondFromBackend(d.svc, be[0], id, 180, d.b.tag)
